@@ -10,6 +10,7 @@ static int cmd_macro(int, char**) {
     json in = json::parse(line);
     th::emit({{"begin", in["i"]}});
     auto files = th::files_of(in);
+    th::watch(in["i"].is_number() ? in["i"].get<long>() : -1, in.value("watch", 240));
     ScanResult sr = scan(files, in.value("main", "m"));
     MacroExtractionResult mer = extract_macros(sr.toks);
     json out; out["i"] = in["i"]; out["scanerrs"] = (int)sr.errors.size(); out["ndefs"] = (int)mer.macros.size();
@@ -37,6 +38,7 @@ static int cmd_macro(int, char**) {
       runs.push_back({{"passes", k}, {"toks", th::tokens_json(mar.transformed_sequence)}, {"errs", errs}});
     }
     out["runs"] = runs;
+    th::unwatch();
     th::emit(out);
   }
   return 0;
